@@ -131,7 +131,7 @@ func effectiveOf(m *model, s *dseen) *ecsVal {
 	return newECSVal(s.Decl.Fam, bits, maskBytes(s.Decl.Addr, bits))
 }
 
-func markersOf(m *dns.Msg) []uint32 { g, _ := markers(m); return g }
+func markersOf(m *dns.Msg) []uint32 { g, _, _ := markersD(m); return g }
 
 func describePackets(e *denv, pk []authsim.Packet) []string {
 	var out []string
@@ -511,7 +511,15 @@ func (e *denv) judgeAudienceP(idx int, op *Op, out *dOut, pk []authsim.Packet, p
 	}
 	e.mu.Unlock()
 
-	gens, ttls := markers(out.Msg)
+	gens, ttls, negative := markersD(out.Msg)
+	// the defect recorded for positive answers in resolver mode (scope lost in
+	// Resolver.clearAdditional) does not apply to negative answers, which the
+	// resolver relays with the authority's OPT: they keep their own signatures
+	what := "scoped-answer"
+	if negative {
+		what = "scoped-negative-answer"
+		r.Count("d_negative_replies_with_marker", 1)
+	}
 	servedScopedFromCache := false
 	var scopedGen *dseen
 	servedFromCache := false
@@ -541,11 +549,18 @@ func (e *denv) judgeAudienceP(idx int, op *Op, out *dOut, pk []authsim.Packet, p
 			continue
 		}
 		r.Count("d_scoped_answers_served", 1)
+		if negative {
+			r.Count("d_scoped_negative_answers_served", 1)
+		}
 		kind := e.entryKind(name, qt, op.Q.CD)
 		ex := map[string]any{"generation": g, "made_in_op": s.Win, "authority_saw": s.Req.String(), "declared": s.Decl.String(),
 			"audience": eff.String(), "client_identities": fmt.Sprint(ids), "cache_after": kind, "upstream": describePackets(e, pk)}
 		if containsAny(eff, ids) {
 			r.Count("d_scoped_serves_inside_scope", 1)
+			if negative && fromCache {
+				r.Count("d_scoped_negative_cache_serves_inside_scope", 1)
+				r.Count("d_scoped_negative_cache_serves_from_"+kind, 1)
+			}
 			r.Count(fmt.Sprintf("d_scoped_serves_inside_scope_fam%d", eff.Fam), 1)
 			if fromCache {
 				r.Count("d_scoped_cache_serves_inside_scope", 1)
@@ -558,13 +573,13 @@ func (e *denv) judgeAudienceP(idx int, op *Op, out *dOut, pk []authsim.Packet, p
 				sig = "resolver/scoped-answer-shared-by-singleflight"
 				how = "both clients were waiting in the resolver's shared-lookup group when the authority answered: one upstream exchange served both"
 			case !fromCache && partner != nil:
-				sig = "resolver/scoped-answer-served-outside-scope/" + kind
+				sig = "resolver/" + what + "-served-outside-scope/" + kind
 				how = "concurrent pair, second client not observed inside the shared lookup before the release"
 			case !fromCache:
-				sig = "resolver/scoped-answer-served-outside-scope/direct"
+				sig = "resolver/" + what + "-served-outside-scope/direct"
 				how = "answered by this client's own upstream exchange"
 			default:
-				sig = "resolver/scoped-answer-served-outside-scope/" + kind
+				sig = "resolver/" + what + "-served-outside-scope/" + kind
 				how = "served from cache"
 			}
 			who := "sent no (permitted) subnet option"
@@ -583,17 +598,20 @@ func (e *denv) judgeAudienceP(idx int, op *Op, out *dOut, pk []authsim.Packet, p
 		scopedGen = s
 		if e.m.capSec > 0 {
 			r.Count("d_scoped_cache_serves_ttl_judged", 1)
+			if negative {
+				r.Count("d_scoped_negative_cache_serves_ttl_judged", 1)
+			}
 			age := e.adv - s.AdvAt
 			capD := time.Duration(e.m.capSec) * time.Second
 			if age >= capD {
-				r.Violation("resolver/scoped-answer-served-past-ttl-cap/"+kind,
+				r.Violation("resolver/"+what+"-served-past-ttl-cap/"+kind,
 					fmt.Sprintf("scoped generation %d of %s served %v (virtual) after it was obtained; cache_limit_ttl is %ds (cache holds the question as %s)", g, name, age, e.m.capSec, kind),
 					caseOfD(e, idx, ex))
 			} else {
 				r.Count("d_scoped_serves_within_cap", 1)
 			}
 			if int(ttls[i]) > e.m.capSec {
-				r.Violation("resolver/scoped-answer-ttl-above-cap/"+kind,
+				r.Violation("resolver/"+what+"-ttl-above-cap/"+kind,
 					fmt.Sprintf("scoped generation %d of %s served from cache with TTL %d > cache_limit_ttl %ds (cache holds the question as %s)", g, name, ttls[i], e.m.capSec, kind),
 					caseOfD(e, idx, ex))
 			}
@@ -614,12 +632,15 @@ func (e *denv) judgeAudienceP(idx int, op *Op, out *dOut, pk []authsim.Packet, p
 		}
 		if servedScopedFromCache {
 			r.Count("d_scoped_hits_checked_for_refresh", 1)
+			if negative {
+				r.Count("d_scoped_negative_hits_checked_for_refresh", 1)
+			}
 			r.Eval(1)
 		}
 		if refreshed > 0 {
 			if servedScopedFromCache {
 				kind := e.entryKind(name, qt, op.Q.CD)
-				r.Violation("resolver/scoped-answer-background-refresh/"+kind,
+				r.Violation("resolver/"+what+"-background-refresh/"+kind,
 					fmt.Sprintf("a cache hit on scoped generation %d of %s (client %s) started a background refresh: %d upstream queries for the question in the window (cache holds the question as %s)",
 						scopedGen.Gen, name, op.Client, refreshed, kind),
 					caseOfD(e, idx, map[string]any{"upstream": describePackets(e, pk)}))
@@ -630,8 +651,10 @@ func (e *denv) judgeAudienceP(idx int, op *Op, out *dOut, pk []authsim.Packet, p
 	}
 }
 
-// goroutinesIn counts goroutines whose stack shows a frame containing fn.
+// goroutinesIn counts goroutines whose stack shows a call frame of fn itself
+// ("fn(" — not a closure "fn.func1(" defined inside it).
 func goroutinesIn(fn string) int {
+	fn += "("
 	buf := make([]byte, 1<<20)
 	for {
 		n := runtime.Stack(buf, true)
